@@ -126,6 +126,11 @@ def adjacent(P):
             b"#" + L + L, b"# x" + L + L + b" " + L, b"/b.so", b"", b"# c"]
 
 
+def percent(P):
+    """lines with printf directives (never %n): kept lines must come out byte for byte, whatever function writes them"""
+    return [b"/lib/50%done.so", b"# 100% sure", b"%s%s%s", b"/x/%d-%u/%5c.so", b"%%", P + b" /lib/50%done.so", P + b" # 100% sure %s", P, b"/lib/foreign.so", b""]
+
+
 def alphabet19(P):
     return [b"/lib/foreign.so", b"# libsnoopy.so x libsnoopy.so x libsnoopy.so", b"", P, P + b" \t", P + b" # c " + P, P + b"#", P + b" /lib/other.so",
             P + b"\t/lib/b.so  /lib/c.so # c", b"/lib/other.so " + P, b"/opt/x/libsnoopy.so", P + b"x", P + b"\r", b" " + P, b"#" + P, P + b" " + P]
@@ -144,15 +149,17 @@ def files(alpha, maxlines):
 
 
 def random_files(rng, P, n, alpha):
-    frag = [b"libsnoopy.so", b"libsnoopy.s", b"snoopy.so", b"libsnoopy", b"libsnoopy.solibsnoopy.so", P, P, P + P, b"#" + P + P, P[:-1], b"#", b" ", b"\t", b"\r", b"/", b"a", b"lib", b".so", b":", b"\xc3\xa9", b"\x01", b"\xff"]
+    frag = [b"%s", b"%d", b"%%", b"50%", b"%5c", b"libsnoopy.so", b"libsnoopy.s", b"snoopy.so", b"libsnoopy", b"libsnoopy.solibsnoopy.so", P, P, P + P, b"#" + P + P, P[:-1], b"#", b" ", b"\t", b"\r", b"/", b"a", b"lib", b".so", b":", b"\xc3\xa9", b"\x01", b"\xff"]
     out = []
     for _ in range(n):
         nl = rng.choice([1, 2, 5, 8, 13, 40])
         ls = []
         for _ in range(nl):
             r = rng.random()
-            if r < 0.12:
+            if r < 0.10:
                 ls.append(rng.choice(adjacent(P)))
+            elif r < 0.18:
+                ls.append(rng.choice(percent(P)))
             elif r < 0.7:
                 ls.append(rng.choice(alpha))
             else:
